@@ -185,7 +185,8 @@ def c_arg(m):
 
 
 def c_node(n):
-    mro = C.clist(["(mkMro %s %s %s)" % (C.cb(m["ok_json"]), C.cb(m["ok_pickle"]), c_largs(m["loaded"])) for m in n["mro"]])
+    mro = C.clist(["(mkMro %s %s %s %s)" % (C.cb(m["ok_json"]), C.cb(m["ok_pickle"]), c_largs(m["loaded"]), C.cb(m["is_exc"]))
+                   for m in n["mro"]])
     return "(mkNode %s %s %s %s %s %s %s %s %s %s %s %s %s %s %s %s)" % (
         C.cb(n["has_module"]), n["resolve"], C.cb(n["accepts_text"]), C.cb(n["accepts_dict"]), C.cb(n["recon_text"]),
         C.cb(n["recon_dict"]), C.cb(n["exc_rt_json"]), C.cb(n["exc_rt_pickle"]), c_largs(n["native"]), mro,
